@@ -86,14 +86,22 @@ func (w *vfWorld) vfGetDefault(id *url.URL) vocab.Type {
 	case 5:
 		return nil // nothing stored under this id
 	case 1:
-		c := vfCollection(w.colItems)
+		items := w.colItems
+		if w.membersOf != nil {
+			items = w.membersOf(id.String())
+		}
+		c := vfCollection(items)
 		c.SetJSONLDId(idp)
 		return c
 	case 2:
 		c := streams.NewActivityStreamsOrderedCollection()
-		if w.colItems != nil {
+		items := w.colItems
+		if w.membersOf != nil {
+			items = w.membersOf(id.String())
+		}
+		if items != nil {
 			oi := streams.NewActivityStreamsOrderedItemsProperty()
-			for _, u := range w.colItems {
+			for _, u := range items {
 				oi.AppendIRI(u)
 			}
 			c.SetActivityStreamsOrderedItems(oi)
